@@ -101,7 +101,8 @@ func symxC11B() {
 	deliver()
 	rt.Assert(len(b2.state.SessionMetadatas().All()) == 1 && len(b2.state.Subscriptions().All()) == nf, "C11.peer_sees_the_session")
 	symxTick()
-	cause := rt.Int("cause", 0, 4)
+	cause := rt.Int("cause", 0, 5)
+	var cNew *symxConn
 	switch cause {
 	case 0:
 		c.feed(symxDisconnect())
@@ -114,9 +115,21 @@ func symxC11B() {
 	case 4:
 		f.mgr.DisconnectClients(b.ctx)
 		c.feedEOF()
+	case 5: // displaced by a newer session of the same client; noticed at the next keep-alive exchange
+		cNew = symxNewConn()
+		rt.Assert(f.connect(cNew, symxConnectBytes("cid", 30, "", nil, nil, 0, false)) == nil, "C11.second_connect_accepted")
+		rt.Quiesce()
+		symxTick()
+		c.feed(symxPingReq())
 	}
 	rt.Quiesce()
 	deliver()
+	if cause == 5 {
+		// the displacing session is a different session: end it cleanly so that only traces of the first one could remain
+		cNew.feed(symxDisconnect())
+		rt.Quiesce()
+		deliver()
+	}
 	rt.Assert(b.local.Get("sid") == nil, "C11.removed_from_registry")
 	rt.Assert(c.isClosed(), "C11.connection_closed")
 	rt.Assert(len(b.state.SessionMetadatas().All()) == 0, "C11.session_record_gone_locally")
